@@ -19,6 +19,12 @@ def run_all(facts):
         out.update(r_more.run(facts, cg))
     except ImportError:
         pass
+    # position independent keys: no impl-block or closure ordinals in what identifies a violation
+    for name, (inst, fnd) in out.items():
+        for x in fnd:
+            x['key'] = facts.stabilise(x['key'])
+            x['function_id'] = x.get('function')
+            x['function'] = facts.stabilise(str(x.get('function')))
     return out
 
 
